@@ -2,7 +2,9 @@
 call) executed with the simulated pool, the OpenMP hand-out shim, short reads and the chunk-size knob
 held by the simulator."""
 import contextlib
+import os
 import random
+import re
 
 from .engine import HarnessError
 from .seams import cli as cliseam
@@ -90,11 +92,96 @@ def chunk_knob(chunksize):
 		cq.QueryParams = old
 
 
-def run_cli(ctx, args, knobs, short_paths=None, short_seed=0, chunk=False):
+KNOB_RE = re.compile(r'^(chunk|batch|block)_?(size)?$')
+KNOB_MODULES = ['gambit.metric', 'gambit.query', 'gambit.sigs.base', 'gambit.sigs.hdf5', 'gambit.sigs.calc', 'gambit.cluster',
+                'gambit.cli.query', 'gambit.cli.dist', 'gambit.cli.tree', 'gambit.cli.signatures', 'gambit.cli.common']
+
+
+def discover_knobs():
+	"""Tuning knobs of the code under test: function parameters called chunksize / batch_size / block... whose
+	default is None or an int.  By their documented meaning they change how work is cut up, never the result."""
+	import importlib
+	import inspect
+	found = []
+	for mn in KNOB_MODULES:
+		try:
+			mod = importlib.import_module(mn)
+		except Exception:
+			continue
+		for name, obj in sorted(vars(mod).items()):
+			fns = []
+			if inspect.isfunction(obj) and obj.__module__ == mn:
+				fns.append((name, obj))
+			elif inspect.isclass(obj) and obj.__module__ == mn:
+				for mname, m in sorted(vars(obj).items()):
+					f = m.__func__ if isinstance(m, (classmethod, staticmethod)) else m
+					if inspect.isfunction(f):
+						fns.append((f'{name}.{mname}', f))
+			for qn, f in fns:
+				try:
+					sig = inspect.signature(f)
+				except (TypeError, ValueError):
+					continue
+				for pn, p in sig.parameters.items():
+					if KNOB_RE.match(pn) and (p.default is None or (isinstance(p.default, int) and not isinstance(p.default, bool))):
+						found.append((f'{mn}.{qn}', f, pn, p.kind == p.KEYWORD_ONLY))
+	return found
+
+
+@contextlib.contextmanager
+def knob_defaults(ctx, ch, label, hi=8):
+	"""Swarm over tuning knobs: per command, each discovered knob keeps its default or gets a small drawn one."""
+	import inspect
+	undo = []
+	chosen = {}
+	for qn, f, pn, kwonly in discover_knobs():
+		v = ch.pick(['default', 'small', 'one'], f'{label}.knob:{qn}:{pn}')
+		if v == 'default':
+			continue
+		val = 1 if v == 'one' else ch.int(2, hi, f'{label}.knobval:{qn}:{pn}')
+		chosen[f'{qn}:{pn}'] = val
+		if kwonly:
+			old = dict(f.__kwdefaults__)
+			undo.append((f, '__kwdefaults__', old))
+			f.__kwdefaults__ = dict(old, **{pn: val})
+		else:
+			params = [p for p in inspect.signature(f).parameters.values() if p.kind in (p.POSITIONAL_ONLY, p.POSITIONAL_OR_KEYWORD)]
+			with_def = [p.name for p in params if p.default is not p.empty]
+			old = f.__defaults__
+			idx = with_def.index(pn)
+			new = list(old)
+			new[idx] = val
+			undo.append((f, '__defaults__', old))
+			f.__defaults__ = tuple(new)
+	if chosen:
+		ctx.probe('tuning_knob_default_randomised')
+	try:
+		yield chosen
+	finally:
+		for f, attr, old in reversed(undo):
+			setattr(f, attr, old)
+
+
+@contextlib.contextmanager
+def in_dir(path):
+	if path is None:
+		yield
+		return
+	old = os.getcwd()
+	os.chdir(path)
+	try:
+		yield
+	finally:
+		os.chdir(old)
+
+
+def run_cli(ctx, args, knobs, short_paths=None, short_seed=0, chunk=False, cwd=None, ch=None, label=None):
 	"""Run one gambit command under the simulator. Returns (cli.Result, SimHandle)."""
 	with simulated(ctx, knobs, short_paths, short_seed) as h:
-		with (chunk_knob(knobs.chunksize) if chunk else contextlib.nullcontext()):
+		with (chunk_knob(knobs.chunksize) if chunk else contextlib.nullcontext()), in_dir(cwd), \
+				(knob_defaults(ctx, ch, label) if ch is not None else contextlib.nullcontext()) as kd:
 			res = cliseam.run(args)
+	h.knob_defaults = kd
 	ctx.tick()
 	ctx.stats['commands'] += 1
 	return res, h
